@@ -6,7 +6,7 @@
    keys of the node table [table jobs]); every theorem holds for every [ord].
    [wf_jobs] is what parse.go guarantees about w.Jobs (ids distinct
    case-insensitively, not empty). *)
-From AL Require Import Base.Str Base.AList Graph.Dfs Graph.DfsProofs Graph.Needs Graph.NeedsProofs.
+From AL Require Import Base.Str Base.AList Out.StableSort Graph.Dfs Graph.DfsProofs Graph.Needs Graph.NeedsProofs Graph.NeedsOrder.
 
 (* ---- termination: the fuel the wrapper supplies is enough for the DFS, the
    reconstruction and the printing loop, and the printing loop never
@@ -90,6 +90,28 @@ Theorem C18_at_most_one : forall jobs ord ds,
   run jobs ord = Done ds -> length (filter is_cycle_diag ds) <= 1.
 Proof. exact at_most_one. Qed.
 Print Assumptions C18_at_most_one.
+
+(* ---- which cycle is printed does not depend on the iteration order of the
+   Go map of nodes: for two orders the cyclic diagnostic is the same, the other
+   diagnostics are a permutation of each other and equal after the final
+   stable sort by position ([distinct_pos]: the jobs are distinct keys of one
+   YAML mapping) *)
+Theorem C18_order_independent : forall jobs ord ord',
+  distinct_pos (table jobs) ->
+  Permutation ord (keys (table jobs)) -> Permutation ord' (keys (table jobs)) ->
+  exists ds ds', run jobs ord = Done ds /\ run jobs ord' = Done ds' /\
+    Permutation ds ds' /\
+    filter is_cycle_diag ds = filter is_cycle_diag ds' /\
+    final_needs ds = final_needs ds'.
+Proof. exact run_order_indep. Qed.
+Print Assumptions C18_order_independent.
+
+Theorem C18_order_independent_example :
+  distinct_pos (table ex_cycle3) /\
+  run ex_cycle3 (keys (table ex_cycle3)) = run ex_cycle3 (rev (keys (table ex_cycle3))) /\
+  exists p c, run ex_cycle3 (keys (table ex_cycle3)) = Done [DCycle p c].
+Proof. exact run_order_indep_example. Qed.
+Print Assumptions C18_order_independent_example.
 
 (* the printed walk really is a cycle of the graph in the sense of [has_cycle] *)
 Theorem C18_real_cycle_has_cycle : forall m c, real_cycle m c -> has_cycle m.
